@@ -8,6 +8,7 @@ The odxraise hook reports the flag value each odxraise() call saw (stale copies)
 from __future__ import annotations
 
 import hashlib
+import os
 import json
 import re
 import sys
@@ -66,10 +67,24 @@ def build_ops() -> Tuple[Dict[str, Callable[[], Any]], List[str], List[str], Lis
         import odxtools.cli.main as cm
         old = sys.argv
         sys.argv = ["odxtools"] + argv
+        import contextlib
+        import io
         try:
-            cm.start_cli()
+            with contextlib.redirect_stdout(io.StringIO()), contextlib.redirect_stderr(io.StringIO()):
+                cm.start_cli()
+        except SystemExit as e:
+            return f"exit({e.code})"          # a tool may end the process; the mode must be restored all the same
         finally:
             sys.argv = old
+    # a small archive for the command line tools (the shipped example takes 50 ms per start)
+    import zipfile
+    tiny = tlc.WORK / f"c17-{os.getpid()}-tiny.pdx"
+    tlc.WORK.mkdir(parents=True, exist_ok=True)
+    with zipfile.ZipFile(tiny, "w") as z:
+        z.writestr("DLC2.odx-d", og.container("DLC2", "DLC2", [_mini_layer(dangling=False)]))
+        z.writestr("index.xml", "<CATALOG><SHORT-NAME>tiny</SHORT-NAME></CATALOG>")
+    import atexit
+    atexit.register(lambda: tiny.exists() and tiny.unlink())
     lin = bv.diag_data_dictionary_spec.data_object_props["lin"].compu_method
     good_doc = og.container("DLC2", "DLC2", [_mini_layer(dangling=False)])
     bad_doc = og.container("DLC3", "DLC3", [_mini_layer(dangling=True)])
@@ -105,8 +120,11 @@ def build_ops() -> Tuple[Dict[str, Callable[[], Any]], List[str], List[str], Lis
         # neutral: the command line entry point with a tool that fails; it must restore the mode it found
         "cli_fail_nostrict": lambda: cli(["--no-strict", "list", "/nonexistent/file.pdx"]),
         "cli_fail_strict": lambda: cli(["list", "/nonexistent/file.pdx"]),
+        # ... with a tool that completes, and with one that ends through sys.exit()
+        "cli_ok_nostrict": lambda: cli(["--no-strict", "list", str(tiny)]),
+        "cli_exit_nostrict": lambda: cli(["--no-strict", "snoop", "--variant", "no_such_variant", str(tiny)]),
     }
-    neutral = ["cli_fail_nostrict", "cli_fail_strict"]
+    neutral = ["cli_fail_nostrict", "cli_fail_strict", "cli_ok_nostrict", "cli_exit_nostrict"]
     valid = ["enc_ok", "dec_ok", "enc_struct_ok", "enc_text_ok", "dec_text_ok", "compu_ok", "layer_decode_ok", "load_ok",
              "layer_decode_nrc"]
     sensitive = [k for k in ops if k not in valid and k not in neutral]
